@@ -1,7 +1,7 @@
 """C04 -- the bytes sent to the terminal paint exactly the rendered canvas.
 
 Sub-checks (DESIGN.md C04):
-  history   draw / clear / resize / set_terminal_properties / register_palette_entry histories on
+  history   draw / clear / resize / set_terminal_properties / register_palette_entry / set_encoding histories on
             urwid.display.raw.Screen (pipe as input, capture object as output, no tty); after every draw the
             captured bytes are interpreted by the reference terminal (vlib.vtmodel.VT) and compared cell by cell
             with the canvas just drawn; a twin Screen that is clear()ed before every draw (full repaint) must
